@@ -92,6 +92,8 @@ def _attached_list(e: ast.AST) -> Optional[Tuple[str, str]]:
             g = n.generators[0]
             if norm(g.iter).endswith(".controllers.items()") and len(g.ifs) == 1:
                 cond = _norm_recv(norm(g.ifs[0]))
+                if isinstance(g.target, ast.Name):
+                    cond = cond.replace(f"{g.target.id}[1]", "c")           # `for item in …items() if item[1].attached(…)`
                 if isinstance(g.target, ast.Tuple) and len(g.target.elts) == 2 and isinstance(g.target.elts[1], ast.Name):
                     cond = re.sub(rf"\b{re.escape(g.target.elts[1].id)}\b", "c", cond)     # the controller variable's name is immaterial
                 return _norm_recv(norm(g.iter)), cond
@@ -128,6 +130,9 @@ def tail_descriptor(rows: List[codec.WRow], fn: Optional[ast.FunctionDef] = None
                     it = ast.parse(loop.split(" in ", 1)[1], mode="eval").body
                     d["cval_list"] = _attached_list(it)
                     d["cval_var"] = loop.split(" in ", 1)[0][4:]
+                    first = d["cval_var"].split(",")[0].strip().strip("(")
+                    if first.isidentifier() and d["cval_src"]:
+                        d["cval_src"] = re.sub(rf"\b{re.escape(first)}\b", "name", d["cval_src"])      # the loop variable's name is immaterial
                 except (IndexError, SyntaxError):
                     d["cval_list"] = None
                 d["cval_extra_guards"] = [_norm_recv(g) for g in tail_guards(r.guards)]
@@ -474,8 +479,8 @@ def chnm_pairing(repo: Repo, rep, P: str):
                 tgt, node = chnm.reader_target(repo, ci, k)
                 text = f"chunk {k:#x}: written from `{n.field}` by {n.fn}"
                 where = f"{rel}:{getattr(n.node, 'lineno', 0)}"
-                if tgt.startswith("?undecidable"):
-                    rep.inconclusive(f"{P}.R3", construct, text, tgt, where)
+                if tgt.startswith("?"):
+                    rep.inconclusive(f"{P}.R3", construct, text, "reader dispatch not followed: " + tgt[1:], where)
                 elif tgt == "":
                     rep.violation(f"{P}.R3", construct, text,
                                   f"{ci.name} writes chunk number {k:#x} but its load_chunk does not dispatch it: the data is lost on load", where)
@@ -808,6 +813,16 @@ def array_constants(repo: Repo, rep, P: str):
                             and isinstance(n.generators[0].target, ast.Name) \
                             and all(isinstance(e, ast.Attribute) and norm(e.value) == n.generators[0].target.id for e in n.elt.elts):
                         order_w = [e.attr for e in n.elt.elts]
+                    # map(attrgetter("min", "max", …), self.values): the fields in the order the getter names them
+                    if isinstance(n, ast.Call) and norm(n.func) == "map" and len(n.args) == 2 and order_w is None:
+                        g_ = n.args[0]
+                        if isinstance(g_, (ast.Name, ast.Attribute)):
+                            g_ = inline.definition_of(repo, ev[0], ev[0].file, g_) or g_
+                        if isinstance(g_, ast.Call) and norm(g_.func) == "staticmethod" and len(g_.args) == 1:
+                            g_ = g_.args[0]
+                        if isinstance(g_, ast.Call) and norm(g_.func) in ("attrgetter", "operator.attrgetter") and len(g_.args) > 1 \
+                                and all(isinstance(a, ast.Constant) and isinstance(a.value, str) and "." not in a.value for a in g_.args):
+                            order_w = [a.value for a in g_.args]
             ecls = None
             if pt and pt[1] == "property" and pt[2][0] is not None:
                 for st in pt[2][0].body:
@@ -929,8 +944,18 @@ def clone_rule(repo: Repo, rep, P: str):
         ok = any(c.startswith("Synth(self)") for c in calls) and any(".write_to(" in c for c in calls) \
             and any(c.endswith(".seek(0)") for c in calls) and any(c.startswith("read_sunvox_file(") for c in calls)
         rets = [norm(s.value) for s in walk_no_nested(fn) if isinstance(s, ast.Return) and s.value is not None]
+        # Synth(self).clone().module: the container's own save-and-load (Synth inherits it), then the module of the result
+        from ..packed import single_defs, resolve_names
+        from . import c01 as _c01
+        synth_k = repo.cls("Synth", module="rv.synth")
+        r_clone = repo.lookup(synth_k, "clone")
+        rv = [resolve_names(s.value, single_defs(fn)) for s in walk_no_nested(fn) if isinstance(s, ast.Return) and s.value is not None]
+        via_container = len(rv) == 1 and isinstance(rv[0], ast.Attribute) and rv[0].attr == "module" and isinstance(rv[0].value, ast.Call) \
+            and norm(rv[0].value) == "Synth(self).clone()" and r_clone is not None and r_clone[0].name == "Container" and r_clone[1] == "method"
         if ok and rets and rets[0].endswith(".module") and not rets[0].startswith("self"):
             rep.ok(f"{P}.R6", f"{rel}:Module.clone", "; ".join(stmts), "clone = Synth(self) saved and loaded")
+        elif via_container and _c01.container_clone_ok(repo)[0]:
+            rep.ok(f"{P}.R6", f"{rel}:Module.clone", "; ".join(stmts), "clone = Synth(self).clone().module; Container.clone is write_to, seek(0), read_sunvox_file")
         else:
             rep.violation(f"{P}.R6", f"{rel}:Module.clone", "; ".join(stmts)[:200],
                           "Module.clone must write Synth(self) and return the module of the synth read back", f"{rel}:{fn.lineno}")
@@ -983,28 +1008,59 @@ def drawn_waveforms(repo: Repo, rep, P: str):
     bodies = []
     for cname, mod in (("Generator", "rv.modules.generator"), ("AnalogGenerator", "rv.modules.analoggenerator")):
         ci = repo.cls(cname, module=mod)
-        fn = repo.own_method(ci, "load_drawn_waveform")
-        bodies.append((ci, fn, norm(ast.Module(body=stmts_of(fn), type_ignores=[]))))
-        ok = False
-        for n in walk_no_nested(fn):
-            if isinstance(n, ast.ListComp) and isinstance(n.elt, ast.BinOp) and isinstance(n.elt.op, ast.Sub):
-                a, b = n.elt.left, n.elt.right
-                if isinstance(a, ast.BinOp) and isinstance(b, ast.BinOp) and isinstance(a.op, ast.BitAnd) and isinstance(b.op, ast.BitAnd) \
-                        and norm(a.left) == norm(b.left):
-                    try:
-                        ma, mb = repo.fold(a.right, ci=ci), repo.fold(b.right, ci=ci)
-                        ok = mb == 1 << 7 and ma == (1 << 7) - 1 and norm(n.generators[0].iter) == "chunk.chdt"
-                    except NotConst:
-                        ok = False
+        fn = inline.normalize(repo, ci, repo.own_method(ci, "load_drawn_waveform", raw=True), aliases=True)
+        bodies.append((ci, fn, norm(ast.Module(body=[x for x in stmts_of(fn) if not (isinstance(x, ast.Expr) and isinstance(x.value, ast.Constant))],
+                                               type_ignores=[]))))
         con = f"{ci.file.rel}:{cname}.load_drawn_waveform"
-        if ok and mask_bits in (8, None):
-            rep.ok(f"{P}.R7", con, "(b & 0x7F) - (b & 0x80) for b in chunk.chdt", "8-bit sign extension: inverse of y & 0xFF on [-128, 127]")
-        else:
-            rep.violation(f"{P}.R7", con, norm(fn)[:200], "drawn waveform bytes must be sign-extended with (b & 0x7F) - (b & 0x80)",
+        cparam = (shape.params(fn) or ["chunk"])[0]
+        # the decoder: a comprehension over the chunk's bytes whose element is a pure integer expression of the byte.  A byte has
+        # 256 values: the expression is folded (the analyser's own constant folder, no repository code runs) for each of them and
+        # compared with sign extension, the inverse of `y & 0xFF` on [-128, 127].
+        stores = [n for n in ast.walk(fn) if isinstance(n, ast.Assign) and any(norm(t) == "self.drawn_waveform.samples" for t in n.targets)]
+        verdict, detail = "?", "no store into drawn_waveform.samples"
+        if not stores:
+            verdict = "nostore"
+        for st_ in stores[-1:]:
+            v = st_.value
+            if isinstance(v, ast.Call) and norm(v.func) == "list" and len(v.args) == 1:
+                v = v.args[0]
+            if isinstance(v, (ast.ListComp, ast.GeneratorExp)) and len(v.generators) == 1 and not v.generators[0].ifs \
+                    and isinstance(v.generators[0].target, ast.Name) and norm(v.generators[0].iter) == f"{cparam}.chdt":
+                yv = v.generators[0].target.id
+                if any(isinstance(x, ast.Name) and x.id not in (yv, "int") for x in ast.walk(v.elt)) or \
+                        any(isinstance(x, ast.Call) and norm(x.func) != "int" for x in ast.walk(v.elt)) or any(isinstance(x, ast.Attribute) for x in ast.walk(v.elt)):
+                    try:
+                        v_elt = inline.fold_module_names(repo, ci.file, ast.Expression(body=v.elt), ci, ("int",)).body
+                    except Exception:
+                        v_elt = v.elt
+                else:
+                    v_elt = v.elt
+                try:
+                    wrong = None
+                    for b in range(256):
+                        got = repo.fold(v_elt, ci=ci, env={yv: b})
+                        want = b - 256 if b >= 128 else b
+                        if got != want:
+                            wrong = (b, got, want)
+                            break
+                    verdict = "ok" if wrong is None else "bad"
+                    if wrong:
+                        detail = f"byte {wrong[0]} decodes to {wrong[1]}, expected {wrong[2]}"
+                except NotConst as e:
+                    verdict, detail = "?", f"decoder element not a foldable integer expression of the byte: {e}"
+            else:
+                verdict, detail = "?", f"samples are not a comprehension over {cparam}.chdt"
+        if verdict == "ok" and mask_bits in (8, None):
+            rep.ok(f"{P}.R7", con, norm(stores[-1].value)[:100], "8-bit sign extension on all 256 byte values: inverse of y & 0xFF on [-128, 127]")
+        elif verdict == "ok":
+            rep.violation(f"{P}.R7", con, norm(stores[-1].value)[:100], "the writer does not store the low 8 bits of each sample", f"{ci.file.rel}:{fn.lineno}")
+        elif verdict == "bad":
+            rep.violation(f"{P}.R7", con, norm(stores[-1].value)[:160], "drawn waveform bytes must be sign-extended (inverse of y & 0xFF): " + detail,
                           f"{ci.file.rel}:{fn.lineno}")
-        s = norm(fn)
-        if "self.drawn_waveform.samples = " not in s:
-            rep.violation(f"{P}.R7", con, s[:120], "decoded samples must be stored in drawn_waveform.samples", f"{ci.file.rel}:{fn.lineno}")
+        elif verdict == "nostore":
+            rep.violation(f"{P}.R7", con, norm(fn)[:120], "decoded samples must be stored in drawn_waveform.samples", f"{ci.file.rel}:{fn.lineno}")
+        else:
+            rep.inconclusive(f"{P}.R7", con, norm(fn)[:160], detail, f"{ci.file.rel}:{fn.lineno}")
     if bodies[0][2] == bodies[1][2]:
         rep.ok(f"{P}.R7", "Generator.load_drawn_waveform ~ AnalogGenerator.load_drawn_waveform", "identical bodies", "sibling implementations agree")
     else:
